@@ -1282,7 +1282,7 @@ class Workspace:
         if rtmock:
             h.update(tree_hash(os.path.join(vf.harness_dir(), "crates", "rtmock")).encode())
             h.update(open(os.path.join(TEMPL, "rt_async.rs")).read().encode())
-        h.update(("%s|%s|%s|%s" % (hook, rtmock, profile, ",".join(self.extra_features))).encode())
+        h.update(("%s|%s|%s|%s|cargo-layout-v2" % (hook, rtmock, profile, ",".join(self.extra_features))).encode())
         for m in names:
             h.update(m.encode())
             h.update(self.modules[m].encode())
@@ -1310,7 +1310,8 @@ class Workspace:
             if self.rtmock:
                 dep += 'rtmock = { path = "%s/crates/rtmock" }\nfutures = { version = "0.3.30", default-features = false, features = ["alloc"] }\n' % vf.harness_dir()
             _write_if_different(os.path.join(self.dir, c, "Cargo.toml"),
-                                "[package]\nname = \"genrun_%s\"\nversion = \"0.0.0\"\nedition = \"2021\"\n[features]\nstd = []\n[dependencies]\n%s" % (c, dep))
+                                "[package]\nname = \"genrun_%s\"\nversion = \"0.0.0\"\nedition = \"2021\"\n[features]\n%sstd = []\n[dependencies]\n%s" % (
+                                    c, "default = [\"std\"]\n" if int(c[1:]) % 2 == 0 else "", dep))   # `--std-feature` bindings see the crate feature `std` on in every other crate
             main = ["#![allow(warnings)]", "mod rt;", "#[global_allocator]", "static GLOBAL: rt::TrackAlloc = rt::TrackAlloc;"]
             if self.rtmock:
                 main.append("mod rt_async;")
@@ -2223,6 +2224,10 @@ def run_units(tools, ws, units, total_calls, seed, wrap=None, env=None, max_fail
                 stats["units"] += 1
                 seen_class = {}
                 for fm in u.funcs:
+                    # values depend only on (seed, world/options key, function): a crash in one function does not shift the others,
+                    # and the sync and async bindings of one world (same rngkey) draw the same values
+                    fkey = "%s:%s#%s" % (fm.dir, (fm.iface or "$root").split("/")[-1], fm.name)
+                    rng = vf.Rng(int(hashlib.sha256(("%d|%s|%s" % (seed, getattr(u, "rngkey", None) or u.modname, fkey)).encode()).hexdigest()[:15], 16))
                     stats["functions"] += 1
                     sig = "%s|%s|%s->%s" % (fm.dir, u.opt.tag(), " ".join(sx(p) for p in fm.params), sx(fm.result) if fm.result else "_")
                     stats["distinct_sigs"].add(sig)
